@@ -290,35 +290,50 @@ theorem foldl_thenOk_inv (I : St → Prop) {α : Type} (f : α → St → St × 
 theorem setComplete_mdP (s : St) (i : Id) (b : Bool) (h : MdP P s) : MdP P (setComplete s i b) :=
   h.set_same_md i _ rfl
 
-/-- where a solved node's metadata may come from: a container of the run (input / constraint file, `#bad#`
-exclusion) or an answer of the configured repositories to some query in some state -/
-def FromRepo (env : Env) (m : Meta) : Prop := m.isMeta = true ∨ ∃ s spec, getDist env s spec = some m
+/-- what a predicate on graph states must satisfy to be carried through a whole solve: it survives `complete`
+flags, `remove_dists`, `add_dist` of a distribution the repositories handed out, and `add_dist` of a container of the
+run (input / constraint file, `#bad#` exclusion) -/
+structure SolverInv (env : Env) (I : St → Prop) : Prop where
+  setC : ∀ s i b, I s → I (setComplete s i b)
+  rem : ∀ s i up s', removeDists 400 s i up = .ok s' → I s → I s'
+  addRepo : ∀ s0 spec m key s src reason s' out, getDist env s0 spec = some m →
+    addDist 400 s (key, some m) src reason env.order = .ok (s', out) → I s → I s'
+  addMeta : ∀ m key s s' out, m.isMeta = true →
+    addDist 400 s (key, some m) none none env.order = .ok (s', out) → I s → I s'
 
-theorem visitSolved_mdP (env : Env) (rec : Rec) (hr : InvRec (MdP P) rec) (s : St) (i : Id) (src : Option Id)
-    (depth maxDown : Nat) (path : List Id) (hs : MdP P s) : MdP P (visitSolved env rec s i src depth maxDown path).1 := by
+theorem SolverInv.withPins {env : Env} {I : St → Prop} (h : SolverInv env I) (pins : List (Name × Req)) (b : Bool) :
+    SolverInv { env with pins := pins, usePins := b } I :=
+  ⟨h.setC, h.rem, h.addRepo, h.addMeta⟩
+
+section generic
+variable {env : Env} {I : St → Prop} (hI : SolverInv env I)
+include hI
+
+theorem visitSolved_inv (rec : Rec) (hr : InvRec I rec) (s : St) (i : Id) (src : Option Id)
+    (depth maxDown : Nat) (path : List Id) (hs : I s) : I (visitSolved env rec s i src depth maxDown path).1 := by
   unfold visitSolved
   simp only
   split
   · exact hs
   split
   · exact hs
-  apply onNoCand_inv (MdP P)
-  · apply thenOk_inv (MdP P)
-    · apply foldl_thenOk_inv (MdP P) (fun d s => if path.contains d then (s, Res.ok) else
+  apply onNoCand_inv I
+  · apply thenOk_inv I
+    · apply foldl_thenOk_inv I (fun d s => if path.contains d then (s, Res.ok) else
         rec s d (some i) (depth+1) maxDown (if path.contains i then path else path ++ [i]))
-      · intro d s hs; show MdP P (if path.contains d then (s, Res.ok) else _).1; split
+      · intro d s hs; show I (if path.contains d then (s, Res.ok) else _).1; split
         · exact hs
         · exact hr _ _ _ _ _ _ hs
       · exact hs
-    · intro s' hs'; exact setComplete_mdP s' i true hs'
+    · intro s' hs'; exact hI.setC s' i true hs'
   · intro s' k cs hs'
     split
     · exact hs'
-    · exact hr _ _ _ _ _ _ (setComplete_mdP s' i false hs')
+    · exact hr _ _ _ _ _ _ (hI.setC s' i false hs')
 
-theorem attempt_mdP (env : Env) (rec : Rec) (hr : InvRec (MdP (FromRepo env)) rec) (s : St) (i : Id) (src : Option Id)
-    (depth maxDown : Nat) (path : List Id) (spec : Req) (hs : MdP (FromRepo env) s) :
-    MdP (FromRepo env) (attempt env rec s i src depth maxDown path spec).1 := by
+theorem attempt_inv (rec : Rec) (hr : InvRec I rec) (s : St) (i : Id) (src : Option Id)
+    (depth maxDown : Nat) (path : List Id) (spec : Req) (hs : I s) :
+    I (attempt env rec s i src depth maxDown path spec).1 := by
   unfold attempt
   split
   · exact hs
@@ -327,18 +342,14 @@ theorem attempt_mdP (env : Env) (rec : Rec) (hr : InvRec (MdP (FromRepo env)) re
     split
     · exact hs
     · rename_i s1 out hadd
-      have hs1 : MdP (FromRepo env) s1 :=
-        (graph_mdP (FromRepo env) 400).2.1 _ _ _ _ _ _ s1 out (liftM_ok hadd) hs
-          (fun m' e => by cases e; exact Or.inr ⟨s, spec, hgd⟩)
-      apply foldl_thenOk_inv (MdP (FromRepo env)) (fun x s => rec s x src (depth+1) maxDown path)
+      have hs1 : I s1 := hI.addRepo _ _ _ _ _ _ _ s1 out hgd (liftM_ok hadd) hs
+      apply foldl_thenOk_inv I (fun x s => rec s x src (depth+1) maxDown path)
       · intro x s hs; exact hr _ _ _ _ _ _ hs
       · exact hs1
 
-
-theorem walkBack_mdP (env : Env) (rec : Rec) (hr : InvRec (MdP (FromRepo env)) rec) (s1 : St) (i : Id)
-    (depth maxDown : Nat) (path : List Id) (k : Name) (cs : List Clause) (hs : MdP (FromRepo env) s1) :
-    MdP (FromRepo env) (walkBack env rec s1 i depth maxDown path k cs).1 := by
-  have hG := graph_mdP (FromRepo env) 400
+theorem walkBack_inv (rec : Rec) (hr : InvRec I rec) (s1 : St) (i : Id)
+    (depth maxDown : Nat) (path : List Id) (k : Name) (cs : List Clause) (hs : I s1) :
+    I (walkBack env rec s1 i depth maxDown path k cs).1 := by
   unfold walkBack
   simp only
   split
@@ -354,68 +365,64 @@ theorem walkBack_mdP (env : Env) (rec : Rec) (hr : InvRec (MdP (FromRepo env)) r
   · rename_i s4 badNodes hstep
     obtain ⟨s2, h2, hstep⟩ := bind_ok hstep
     obtain ⟨s3, h3, hstep⟩ := bind_ok hstep
-    have hs2 : MdP (FromRepo env) s2 := hG.1 _ _ _ _ (liftM_ok h2) hs
-    have hs3 : MdP (FromRepo env) s3 := hG.1 _ _ _ _ (liftM_ok h3) (setComplete_mdP _ _ _ hs2)
-    have hs4 : MdP (FromRepo env) s4 :=
-      hG.2.1 _ _ _ _ _ _ s4 badNodes (liftM_ok hstep) (setComplete_mdP _ _ _ hs3) (fun m' e => by cases e; exact Or.inl rfl)
-    have hr2 : ∀ b, MdP (FromRepo env) (thenOk (rec s4 i none depth (maxDown-1) path)
+    have hs2 : I s2 := hI.rem _ _ _ _ (liftM_ok h2) hs
+    have hs3 : I s3 := hI.rem _ _ _ _ (liftM_ok h3) (hI.setC _ _ _ hs2)
+    have hs4 : I s4 := hI.addMeta _ _ _ s4 badNodes rfl (liftM_ok hstep) (hI.setC _ _ _ hs3)
+    have hr2 : ∀ b, I (thenOk (rec s4 i none depth (maxDown-1) path)
         fun s5 => rec s5 b none depth (maxDown-1) path).1 :=
       fun b => thenOk_inv _ _ _ (hr _ _ _ _ _ _ hs4) (fun s5 h5 => hr _ _ _ _ _ _ h5)
     split
     · exact hr2 _
     · rename_i s7 hclean
-      refine foldlM_invS (MdP (FromRepo env)) _ ?_ _ _ _ (hr2 _) hclean
+      refine foldlM_invS I _ ?_ _ _ _ (hr2 _) hclean
       intro st b st' hst hb
-      exact hG.1 _ _ _ _ (liftM_ok hb) hst
+      exact hI.rem _ _ _ _ (liftM_ok hb) hst
 
-theorem visitUnsolved_mdP (env : Env) (rec : Rec) (hr : InvRec (MdP (FromRepo env)) rec) (s : St) (i : Id) (src : Option Id)
-    (depth maxDown : Nat) (path : List Id) (hs : MdP (FromRepo env) s) :
-    MdP (FromRepo env) (visitUnsolved env rec s i src depth maxDown path).1 := by
+theorem visitUnsolved_inv (rec : Rec) (hr : InvRec I rec) (s : St) (i : Id) (src : Option Id)
+    (depth maxDown : Nat) (path : List Id) (hs : I s) :
+    I (visitUnsolved env rec s i src depth maxDown path).1 := by
   unfold visitUnsolved
   split
   · exact hs
   simp only
   split
   · exact hs
-  apply onNoCand_inv (MdP (FromRepo env))
-  · exact attempt_mdP env rec hr _ _ _ _ _ _ _ hs
+  apply onNoCand_inv I
+  · exact attempt_inv hI rec hr _ _ _ _ _ _ _ hs
   · intro s1 k cs h1
     split
     · exact h1
-    · exact walkBack_mdP env rec hr _ _ _ _ _ _ _ h1
+    · exact walkBack_inv hI rec hr _ _ _ _ _ _ _ h1
 
-theorem body_mdP (env : Env) (rec : Rec) (hr : InvRec (MdP (FromRepo env)) rec) : InvRec (MdP (FromRepo env)) (body env rec) := by
+theorem body_inv (rec : Rec) (hr : InvRec I rec) : InvRec I (body env rec) := by
   intro s i src depth maxDown path hs
   unfold body
   simp only
-  have key : MdP (FromRepo env) (match (s.get i).md with
+  have key : I (match (s.get i).md with
       | some _ => visitSolved env rec s i src depth maxDown path
       | none => visitUnsolved env rec s i src depth maxDown path).1 := by
     split
-    · exact visitSolved_mdP env rec hr _ _ _ _ _ _ hs
-    · exact visitUnsolved_mdP env rec hr _ _ _ _ _ _ hs
+    · exact visitSolved_inv hI rec hr _ _ _ _ _ _ hs
+    · exact visitUnsolved_inv hI rec hr _ _ _ _ _ _ hs
   split
   · split
     · exact hs
     · exact key
   · exact key
 
-/-- **compileRoots_provenance**: whatever the universe, the inputs, the budget and the walk-back history, every metadata
-object held by a node after `compile_roots` was held before, is a container of the run, or was handed out by the
-configured repositories for some query -/
-theorem compileRoots_provenance (env : Env) : ∀ fuel, InvRec (MdP (FromRepo env)) (compileRoots env fuel)
+/-- **compileRoots_inv**: a predicate with `SolverInv` holds after `compile_roots` when it held before — for every
+universe, budget and walk-back history -/
+theorem compileRoots_inv : ∀ fuel, InvRec I (compileRoots env fuel)
   | 0 => by intro s i src depth maxDown path hs; exact hs
-  | fuel+1 => body_mdP env _ (compileRoots_provenance env fuel)
+  | fuel+1 => body_inv hI _ (compileRoots_inv fuel)
 
-
-theorem addAll_mdP (env : Env) (s : St) (ms : List Meta) (order : Orders) (s' : St) (out : List Id)
-    (hms : ∀ m ∈ ms, m.isMeta = true) (hs : MdP (FromRepo env) s) (h : addAll s ms order = .ok (s', out)) :
-    MdP (FromRepo env) s' := by
+theorem addAll_inv (s : St) (ms : List Meta) (s' : St) (out : List Id)
+    (hms : ∀ m ∈ ms, m.isMeta = true) (hs : I s) (h : addAll s ms env.order = .ok (s', out)) : I s' := by
   unfold addAll at h
-  have : ∀ (l : List Meta) (acc acc' : St × List Id), (∀ m ∈ l, m.isMeta = true) → MdP (FromRepo env) acc.1 →
+  have : ∀ (l : List Meta) (acc acc' : St × List Id), (∀ m ∈ l, m.isMeta = true) → I acc.1 →
       l.foldlM (fun (st : St × List Id) m => do
-        let (s', o) ← liftM (addDist 400 st.1 (normName m.name, some m) none none order)
-        pure (s', st.2 ++ o.filter (fun x => !st.2.contains x))) acc = .ok acc' → MdP (FromRepo env) acc'.1 := by
+        let (s', o) ← liftM (addDist 400 st.1 (normName m.name, some m) none none env.order)
+        pure (s', st.2 ++ o.filter (fun x => !st.2.contains x))) acc = .ok acc' → I acc'.1 := by
     intro l
     induction l with
     | nil => intro acc acc' _ hacc h; simp only [List.foldlM_nil] at h; cases h; exact hacc
@@ -426,33 +433,27 @@ theorem addAll_mdP (env : Env) (s : St) (ms : List Meta) (order : Orders) (s' : 
       obtain ⟨r, hr, hb⟩ := bind_ok hb
       cases hb
       apply ih _ _ (fun m' hm' => hl m' (List.mem_cons_of_mem _ hm')) ?_ h
-      exact (graph_mdP (FromRepo env) 400).2.1 _ _ _ _ _ _ r.1 r.2 (by rw [liftM_ok hr]) hacc
-        (fun m' e => by cases e; exact Or.inl (hl m (List.mem_cons_self)))
+      exact hI.addMeta m _ _ r.1 r.2 (hl m List.mem_cons_self) (by rw [liftM_ok hr]) hacc
   exact this ms (s, []) (s', out) hms hs h
 
-theorem fromRepo_env_pins (env : Env) (pins : List (Name × Req)) (b : Bool) (m : Meta)
-    (h : FromRepo { env with pins := pins, usePins := b } m) : FromRepo env m := h
-
-theorem go_mdP (p : Problem) (env : Env) : ∀ (ns : List Id) (s : St), MdP (FromRepo env) s →
-    MdP (FromRepo env) (performCompile.go p env ns s).1
+theorem go_inv (p : Problem) : ∀ (ns : List Id) (s : St), I s → I (performCompile.go p env ns s).1
   | [], s, hs => by unfold performCompile.go; exact hs
   | n :: rest, s, hs => by
     unfold performCompile.go
-    have h1 := compileRoots_provenance env 3000 s n none 1 p.maxDown [] hs
+    have h1 := compileRoots_inv hI 3000 s n none 1 p.maxDown [] hs
     split
     · rename_i s' heq
       rw [heq] at h1
-      exact go_mdP p env rest s' h1
+      exact go_inv p rest s' h1
     · exact h1
 
-/-- **solved_pins_were_offered**: after `perform_compile` — success or failure, whatever the universe, the constraint
-files, the budget and the walk-back history — every node that holds a distribution holds one that the configured
-repositories handed out for some query: its name, version and requirement list are a repository's, never invented,
-never mixed.  (`getDist_some_sound` then says that this distribution is an offered version of the queried project,
-accepted by every clause of that query.) -/
-theorem performCompile_provenance (env : Env) (p : Problem) (s0 : St) (h0 : MdP (FromRepo env) s0)
+end generic
+
+/-- **performCompile_inv**: a predicate with `SolverInv` that holds of the initial graph holds of the graph
+`perform_compile` ends with — success, `NoCandidate` or internal error alike -/
+theorem performCompile_inv {env : Env} {I : St → Prop} (hI : SolverInv env I) (p : Problem) (s0 : St) (h0 : I s0)
     (hin : ∀ m ∈ p.inputs, m.isMeta = true) (hcon : ∀ c ∈ p.constraints, c.1.isMeta = true) :
-    MdP (FromRepo env) (performCompile env p s0).1 := by
+    I (performCompile env p s0).1 := by
   have hcm : ∀ m ∈ p.constraints.map (·.1), m.isMeta = true := by
     intro m hm
     obtain ⟨c, hc, rfl⟩ := List.mem_map.1 hm
@@ -462,33 +463,27 @@ theorem performCompile_provenance (env : Env) (p : Problem) (s0 : St) (h0 : MdP 
   split
   · exact h0
   rename_i s1 cnodes hr0
-  have hs1 : MdP (FromRepo env) s1 := by
+  have hs1 : I s1 := by
     split at hr0
-    · exact addAll_mdP env _ _ _ _ _ hcm h0 hr0
+    · exact addAll_inv hI _ _ _ _ hcm h0 hr0
     · cases hr0; exact h0
   split
   · exact hs1
   rename_i s2 roots hadd
-  have hs2 : MdP (FromRepo env) s2 := addAll_mdP env _ _ _ _ _ hin hs1 hadd
-  have hgo : ∀ env' : Env, (∀ m, FromRepo env' m → FromRepo env m) → (∀ m, FromRepo env m → FromRepo env' m) →
-      ∀ ns, MdP (FromRepo env) (performCompile.go p env' ns s2).1 := by
-    intro env' h1 h2 ns
-    have := go_mdP p env' ns s2 (fun i m hm => h2 m (hs2 i m hm))
-    exact fun i m hm => h1 m (this i m hm)
+  have hs2 : I s2 := addAll_inv hI _ _ _ _ hin hs1 hadd
+  have hgo : ∀ pins b ns, I (performCompile.go p { env with pins := pins, usePins := b } ns s2).1 :=
+    fun pins b ns => go_inv (hI.withPins pins b) p ns s2 hs2
   generalize hE : performCompile.go p _ _ _ = r
-  have hr : MdP (FromRepo env) r.1 := by
-    rw [← hE]
-    refine hgo _ ?_ ?_ _
-    · intro m h; exact h
-    · intro m h; exact h
-  have hfin : ∀ s3 s4, MdP (FromRepo env) s3 →
+  have hr : I r.1 := by
+    rw [← hE]; exact hgo _ _ _
+  have hfin : ∀ s3 s4, I s3 →
       (if (!p.removeConstraints && (pinScan p.constraints).1 && !p.constraints.isEmpty) = true
-        then (addAll s3 (p.constraints.map (·.1)) env.order).map (·.1) else .ok s3) = .ok s4 → MdP (FromRepo env) s4 := by
+        then (addAll s3 (p.constraints.map (·.1)) env.order).map (·.1) else .ok s3) = .ok s4 → I s4 := by
     intro s3 s4 h3 hf
     split at hf
     · cases ha : addAll s3 (p.constraints.map (·.1)) env.order with
       | error e => rw [ha] at hf; cases hf
-      | ok r => rw [ha] at hf; cases hf; exact addAll_mdP env _ _ _ r.1 r.2 hcm h3 (by rw [ha])
+      | ok r => rw [ha] at hf; cases hf; exact addAll_inv hI _ _ r.1 r.2 hcm h3 (by rw [ha])
     · cases hf; exact h3
   split
   · split
@@ -499,6 +494,32 @@ theorem performCompile_provenance (env : Env) (p : Problem) (s0 : St) (h0 : MdP 
     · exact hr
   · exact hr
 
+/-! ### instance: provenance of metadata -/
+
+/-- where a solved node's metadata may come from: a container of the run (input / constraint file, `#bad#`
+exclusion) or an answer of the configured repositories to some query in some state -/
+def FromRepo (env : Env) (m : Meta) : Prop := m.isMeta = true ∨ ∃ s spec, getDist env s spec = some m
+
+theorem mdP_solverInv (env : Env) : SolverInv env (MdP (FromRepo env)) where
+  setC := fun s i b h => setComplete_mdP s i b h
+  rem := fun s i up s' h hs => (graph_mdP (FromRepo env) 400).1 s i up s' h hs
+  addRepo := fun s0 spec m key s src reason s' out hg h hs =>
+    (graph_mdP (FromRepo env) 400).2.1 _ _ _ _ _ _ s' out h hs (fun m' e => by cases e; exact Or.inr ⟨s0, spec, hg⟩)
+  addMeta := fun m key s s' out hm h hs =>
+    (graph_mdP (FromRepo env) 400).2.1 _ _ _ _ _ _ s' out h hs (fun m' e => by cases e; exact Or.inl hm)
+
+/-- **compileRoots_provenance** -/
+theorem compileRoots_provenance (env : Env) (fuel : Nat) : InvRec (MdP (FromRepo env)) (compileRoots env fuel) :=
+  compileRoots_inv (mdP_solverInv env) fuel
+
+/-- **performCompile_provenance**: after `perform_compile` — success or failure, whatever the universe, the constraint
+files, the budget and the walk-back history — every node that holds a distribution holds one that the configured
+repositories handed out for some query: its name, version and requirement list are a repository's, never invented,
+never mixed. -/
+theorem performCompile_provenance (env : Env) (p : Problem) (s0 : St) (h0 : MdP (FromRepo env) s0)
+    (hin : ∀ m ∈ p.inputs, m.isMeta = true) (hcon : ∀ c ∈ p.constraints, c.1.isMeta = true) :
+    MdP (FromRepo env) (performCompile env p s0).1 :=
+  performCompile_inv (mdP_solverInv env) p s0 h0 hin hcon
 
 theorem mdP_empty (P : Meta → Prop) (acc : List (Clause × Ver)) : MdP P (s0 acc) := by
   intro i m h
